@@ -72,6 +72,7 @@ pub enum OpA {
     OpenSent { ord: usize },
     CancelSent { ord: usize },
     Snap { ord: usize, st: SnapSt },
+    /// a failed cancel (ok == false) carries error kind `t % 3`: connectivity / rate limit / rejected
     CancelResp { ord: usize, ok: bool, t: i64 },
     Bal { asset: usize, t: i64, total: i64 },
     Trade { inst: usize, t: i64, price: i64 },
@@ -447,7 +448,11 @@ fn apply(state: &mut St, w: &World, sc: &ScenarioA, op: &OpA) {
                             time_exchange: ts(*t),
                         })
                     } else {
-                        Err(OrderError::Connectivity(ConnectivityError::Timeout))
+                        match t.rem_euclid(3) {
+                            0 => Err(OrderError::Connectivity(ConnectivityError::Timeout)),
+                            1 => Err(OrderError::Rejected(ApiError::RateLimit)),
+                            _ => Err(OrderError::Rejected(ApiError::OrderRejected("sim".into()))),
+                        }
                     },
                 }),
             };
